@@ -40,8 +40,9 @@ def descriptor_fields(P):
         raise AnalysisError("anchor vanished: Inotify.__init__")
     fields = {}
     local_from = {}
-    for n in ast.walk(init.node):
-        if isinstance(n, ast.Assign) and isinstance(n.value, ast.Call):
+    assigns = [n for n in ast.walk(init.node) if isinstance(n, ast.Assign)]
+    for n in assigns:
+        if isinstance(n.value, ast.Call):
             f = dotted(n.value.func) or ""
             if f == "inotify_init" or f == "os.pipe":
                 for t in n.targets:
@@ -52,11 +53,22 @@ def descriptor_fields(P):
                             fields[d.split(".")[1]] = f
                         elif d:
                             local_from[d] = f
-        if isinstance(n, ast.Assign) and isinstance(n.value, ast.Name) and n.value.id in local_from:
-            for t in n.targets:
-                d = dotted(t)
-                if d and d.startswith("self."):
-                    fields[d.split(".")[1]] = local_from[n.value.id]
+    # copies through locals (any number of hops): x = y / a, b = y
+    changed = True
+    while changed:
+        changed = False
+        for n in assigns:
+            if isinstance(n.value, ast.Name) and n.value.id in local_from:
+                for t in n.targets:
+                    elts = t.elts if isinstance(t, ast.Tuple) else [t]
+                    for x in elts:
+                        d = dotted(x)
+                        if d and d.startswith("self.") and d.split(".")[1] not in fields:
+                            fields[d.split(".")[1]] = local_from[n.value.id]
+                            changed = True
+                        elif d and not d.startswith("self.") and d not in local_from:
+                            local_from[d] = local_from[n.value.id]
+                            changed = True
     if len(fields) < 3:
         raise AnalysisError(f"descriptor fields of Inotify not recognised: {fields}")
     return fields, init
